@@ -18,7 +18,7 @@ def inst_of(suite):
     return (suite[2], suite[3], 1 if suite[6] else 0, 1 if (suite[6] and suite[7]) else 0)
 
 
-def gen_suites(rng, nsuites, versions, allow_tls, modes, raw_ok=True, ncases=(1, 3)):
+def gen_suites(rng, nsuites, versions, allow_tls, modes, raw_ok=True, ncases=(1, 3), tls_p=0.07):
     """suites with one relevant protocol/version/codec/compression each; a (protocol, version, codec,
     compression) cell is never shared between a non-TLS suite and a TLS suite without client
     certificates (C07's expansion would then add TLS:true permutations of the non-TLS suite)."""
@@ -30,7 +30,7 @@ def gen_suites(rng, nsuites, versions, allow_tls, modes, raw_ok=True, ncases=(1,
             ver = rng.choice(versions)
             codec = rng.choice([1, 1, 1, 2])
             comp = rng.choice([1, 1, 2, 3])
-            tls = allow_tls and rng.random() < 0.22
+            tls = allow_tls and rng.random() < tls_p
             certs = tls and rng.random() < 0.4
             cell = (proto, ver, codec, comp)
             kind = "c" if certs else ("t" if tls else "n")
@@ -172,11 +172,13 @@ class C05(Prop):
         return "scheduling of run(): sends / server lifetimes / outcomes differ from the proved model"
 
     # -- generators ---------------------------------------------------------
-    def run_case(self, rng, detail, lockstep, verbose=None, maxs=None, missing=False, nsuites=None, tls=True):
+    def run_case(self, rng, detail, lockstep, verbose=None, maxs=None, missing=False, nsuites=None, tls=True, tls_p=0.07):
+        # TLS instances make run() generate RSA keys (slow, and slow to shrink): few of them in the general
+        # stream, a dedicated small family below
         if detail == 0:
-            suites = gen_suites(rng, nsuites or rng.randint(1, 5), [1, 2, 3], tls, [0, 0, 0, 0, 1, 2])
+            suites = gen_suites(rng, nsuites or rng.randint(1, 5), [1, 2, 3], tls, [0, 0, 0, 0, 1, 2], tls_p=tls_p)
         elif detail == 1:
-            suites = gen_suites(rng, nsuites or rng.randint(2, 5), [1, 2], tls, [0, 0, 2, 2, 1], ncases=(1, 2))
+            suites = gen_suites(rng, nsuites or rng.randint(2, 5), [1, 2], tls, [0, 0, 2, 2, 1], ncases=(1, 2), tls_p=tls_p)
         else:
             suites = gen_suites(rng, nsuites or rng.randint(2, 4), [1, 2], False, [0, 0, 1, 1, 2], ncases=(1, 2))
         runp, skipp = gen_patterns(rng, suites, marked=detail != 0)
@@ -196,6 +198,11 @@ class C05(Prop):
             yield self.run_case(rng, 0, lockstep=False, verbose=False, maxs=maxs, nsuites=4, tls=False)
             yield self.run_case(rng, 1, lockstep=False, maxs=maxs, nsuites=3, tls=False)
         yield self.run_case(rng, 2, lockstep=False, nsuites=2, tls=False)
+        # TLS family: certificates, client certificates, servers rejected for answering without a certificate
+        for i in range(14 if quick else 200):
+            yield self.run_case(rng, 0, lockstep=(i % 3 != 2), maxs=rng.choice([1, 1, 2]), nsuites=rng.randint(2, 3), tls_p=0.7)
+        for i in range(4 if quick else 40):
+            yield self.run_case(rng, 1, lockstep=False, nsuites=2, tls_p=0.7)
         # request completion: every instance x reference-server flag on a fixed suite, then random
         for g in itertools.product([1, 2, 3], [1, 2], [0, 1], [0, 1]):
             for sref in (0, 1):
